@@ -168,7 +168,7 @@ def check_nc(ctx, case):
     for k in range(repeat + 1):
         for (n, o, c, vel) in notes:
             exp.append((72 * k, "on", c, T.pitch(n, o) + 12, vel))
-            exp.append((72 * (k + 1), "off", c, T.pitch(n, o) + 12))
+            exp.append((72 * (k + 1), "off", c, T.pitch(n, o) + 12, vel))
     if data is not None:
         r = _structure(ctx, data, 1)
         if r is not None and r["tracks"]:
